@@ -5,22 +5,21 @@ import (
 	"os"
 
 	h "lssim/harness"
-	"lssim/model"
+	"lssim/oracle"
 )
 
 func main() {
-	sc, err := h.LoadScenario(os.Args[1])
-	if err != nil {
-		panic(err)
-	}
-	s := h.NewStore(sc.World)
-	for _, p := range s.Paths {
-		for _, f := range p.Files {
-			if f.Rendered == nil || f.Spec == nil {
-				continue
-			}
-			m := model.Origins(p.Spec.Schema, f.Spec, f.Rendered, p.Spec.Funcs)
-			fmt.Println(p.Path.Path, f.Name, "MUST", m.Must, "MAY", m.May)
+	for i := 1; i < len(os.Args); i++ {
+		sc, err := h.LoadScenario(os.Args[i])
+		if err != nil {
+			panic(err)
+		}
+		c := sc.Clone()
+		x := h.NewExec(c, oracle.New(c.Property), h.NewCoverage())
+		x.Execute()
+		fmt.Println("run", i, "viol", len(x.Viol), "evals", x.Cov.Evaluations, x.LogHash())
+		for _, v := range x.Viol {
+			fmt.Println("   ", v.Fingerprint, v.Detail[:min(len(v.Detail), 200)])
 		}
 	}
 }
